@@ -47,6 +47,10 @@ CHECKS = {
          'exact integer predicates; complete for all vertex lists of length 0..4 on a 4x4 grid x 81 query points (thorough: +5-vertex '
          'and 5x5), sampled beyond that',
          'trusts the 60-line integer oracle (oracle_geom.cpp, no gdstk headers); coordinates restricted to exactly representable dyadic values', '7/C14'),
+ 'C16': ('exploration', 'history + executable model: abstract cell graph updated per documented operation semantics, compared with the real graph after every step, under ASan+UBSan',
+         'after each of 5-24 edit operations the type and target identity of every reference, library membership, top-level set, dependency sets and tags in use '
+         'must equal the model; content compared between start and end',
+         'model in py/c16.py; histories sampled; graphs kept acyclic; names kept unique', '7/C16'),
  'C17': ('exploration', 'differential monitor: partial readers vs full reader vs independent decoder; byte-level comparison of re-emitted raw cells and timestamp rewrites',
          'gds_info/gds_units/gds_timestamp, filtered and rescaled loads, raw-cell copies and timestamp rewrites are compared with the full load '
          'and with the independent decoder on files from both writers',
